@@ -125,9 +125,21 @@ def obs_call(c, cid):
     return [ev]
 
 
+def _interleaved_call_with_overrides():
+    """repeated calls must be identical whatever happened in between: here an unrelated call that overrides built-in rules"""
+    def plain(module, grad_input, grad_output):
+        return grad_input
+    m = torch.nn.Sequential(torch.nn.Flatten(), torch.nn.Linear(4 * L, 2).double(), torch.nn.Tanh(), torch.nn.ReLU(), torch.nn.Linear(2, 1).double())
+    X = enc(3, 1).unsqueeze(0)
+    refs = enc(2, 5).unsqueeze(0).unsqueeze(0)
+    deep_lift_shap(m, X, references=refs, additional_nonlinear_ops={torch.nn.Tanh: plain, torch.nn.ReLU: plain}, device="cpu")
+
+
 def handler(case):
     evs = []
-    for (cid, c) in case["calls"]:
+    for k, (cid, c) in enumerate(case["calls"]):
+        if k % 7 == 3:
+            _interleaved_call_with_overrides()
         evs += obs_call(c, cid) if c.get("obs") else one_call(c, cid)
     return {"events": evs}
 
